@@ -99,7 +99,10 @@ def perform(vec, plain, link):
     pre, z = vec["pre"], vec["z"]
     for side in (pre, z):     # an empty TLA+ function is printed as []
         side["own"] = {k: (v if isinstance(v, dict) else {}) for k, v in side["own"].items()}
-    objs = build(pre, plaincls, linkcls)
+    try:
+        objs = build(pre, plaincls, linkcls)
+    except Exception as e:  # noqa: creating links to existing targets failed -- an observation, too
+        return {"build_failed": True, "built": "raised %s: %s" % (type(e).__name__, str(e)[:200])}
     built = project()
     want = {"alive": sorted(pre["alive"]), "tgt": pre["tgt"], "par": pre["par"], "ch": pre["ch"]}
     if any(built[k] != want[k] for k in want) or any(built["own"][l] != {k: v for k, v in pre["own"][l].items() if v != "ro"} for l in pre["own"]):
